@@ -37,7 +37,7 @@ MODULES = {
     ),
 }
 
-TRUSTED = ("translate/py2lean.py (T1 translator, ~600 lines of Python: the reading of the closed Python fragment written down in "
+TRUSTED = ("translate/py2lean.py (T1 translator, ~900 lines of Python: the reading of the closed Python fragment written down in "
            "translate/SEMANTICS.md) and its runtime Model.PyRt / Model.PyInt")
 
 
